@@ -4,3 +4,5 @@ import Dm.Props.C13
 #print axioms Dm.Props.C13.rejected_otherwise
 #print axioms Dm.Props.C13.newtype_delegates
 #print axioms Dm.Props.C13.accepts_unique
+#print axioms Dm.Props.C13.arm_matches_iff
+#print axioms Dm.Props.C13.find_unique
